@@ -69,6 +69,8 @@ def repro_specs(ctx, n):
         s1, s2 = rng.randrange(10**6), rng.randrange(10**6)
         if i % 3 == 0:      # the ends of the seed range: 0 is a seed like any other
             s1 = [0, 2**31 - 1, 1][(i // 3) % 3]
+        if i % 8 == 5:      # no seed passed at all: the default seed applies both times
+            s1 = None
         tgt = "solve_and_simulate" if i % 2 else "simulate"
         sim = lambda seed: {"op": "simulate", "target": tgt, "init": init, "seed": seed, "vsrc": "own"}  # noqa: E731
         plan = [sim(s1), sim(s1), {"op": "rel-sim", "a": 1, "b": 2, "map": list(range(na)), "scope": "all", "what": "same-seed-different-frame"},
